@@ -32,6 +32,11 @@ CHECKS = {
         text="C04_functions_partial (NoDup names -> registry = every def exactly once with dotted name and line), C04_classes_lines, C04_classes_names_partial; C04_functions_refuted_same_name and C04_classes_names_refuted_nested are the two recorded findings. Each run compares every generated def/class (any nesting) with pyscn's rows: name, StartLine, EndLine, exactly once; one __main__ row.",
         note="The full statement is false on the current tree for two input classes (known findings F3b, F20), each matched narrowly. End lines and decorators are checked by the harness (python3 ast as independent reference), not modelled.",
         design="5 C04"),
+    "C11": dict(
+        technique="Coq proof: reachability-closure specification of non-trivial SCCs with proved characterisation; literal Gallina model of circular_detector.go (Tarjan) and AddModule/AddDependency; proved certificate checker run on the implementation's outputs; exhaustive vm_compute equivalence on all digraphs <=4 modules; constants/decision expressions regenerated from Go source; differential correspondence against the tagged driver and the CLI",
+        text="Theorems (Props/C11.v, no axioms): closure decides reachability; scc_spec = maximal mutually-reachable sets with >=2 members, pairwise disjoint, each once; same-cycle <=> mutual reachability; check_sccs accepts only the spec (all graphs, all outputs); Tarjan model = spec for every digraph on <=4 modules x 6 iteration orders (bounded); for all graphs the model's components have >=2 modules and are pairwise disjoint, count = #components, modules-in-cycles = sum of sizes, severity = documented table (partial). Every run: all digraphs <=4 modules, sampled (thorough: all 2^20) 5-module digraphs, random graphs to 60 modules and generated Python projects are run through the real detector/CLI and compared with the spec, the proved checker and the model.",
+        note="Full Tarjan correctness for >4 modules and fuel sufficiency are not proved (bounded + partial + certificate instead). Severity spec includes the documented fan-in>10 => critical rule. Order of the cycle list is not compared. Hand-written model; correspondence is sampled beyond 5 modules.",
+        design="5 C11"),
     "C15": dict(
         technique="Coq proof over an exact-rational model of domain/analyze.go + calculateSummary; constants regenerated from Go source; differential correspondence (vm_compute) against the tagged Go driver",
         text="Theorems (Props/C15.v, no axioms): score and category ranges, score = max 0 (100 - sum of penalties) with caps 20/20/20/20/20/16/12, grade table, monotonicity in every measured quantity (simultaneously), skipping analyses never lowers the score. The model is tied to the code by regenerated constants and by running CalculateHealthScore / calculateSummary and the model on boundary-lattice and random summaries every run.",
